@@ -388,9 +388,11 @@ class CookieJar(AbstractCookieJar):
                     max_age_expiration = min(time.time() + delta_seconds, self.MAX_TIME)
                     self._expire_cookie(max_age_expiration, domain, path, name)
                 except ValueError:
-                    cookie["max-age"] = ""
+                    # An invalid Max-Age is ignored (RFC 6265 5.2.2): the
+                    # Expires attribute, if any, decides then.
+                    cookie["max-age"] = max_age = ""
 
-            elif expires := cookie["expires"]:
+            if not max_age and (expires := cookie["expires"]):
                 # 0 is a valid timestamp: "Expires=Thu, 01 Jan 1970 00:00:00 GMT"
                 # is the conventional way to delete a cookie.
                 if (expire_time := self._parse_date(expires)) is not None:
